@@ -21,9 +21,23 @@ HARNESSES = [
       {'defines': ['NBLK=3'], 'bound': '1..3 context headers, two difficulties, 2 symbolic hash bytes each, symbolic link breaks', 'timeout': 250},
       {'defines': ['NBLK=4'], 'bound': '1..4 context headers', 'timeout': 1500, 'jobs': 16}, covers=(1, 2, 3)),
 ]
+def HC(name, macro, what, nl_q, nl_t, tq, tt):
+    return {'name': name, 'src': 'C05/h_compose.cpp', 'entry': 'h_compose', 'repo_srcs': SRCS, 'defines': [macro], 'covers': [1, 2, 3, 4], 'jobs': 16, 'override': True,
+            'obligations': [what + ' returns valid <=> every fact it stands for holds: magic byte of the configured network (regtest/testnet/mainnet), structural limits, '
+                            'signature verified over the transaction\'s own hash/key, sender address derived from that key, Merkle path proves the transaction id against the Merkle root of the carried header '
+                            '(independent fold; node hash = uninterpreted collision-free function), ' + ('publication data names this altchain and the endorsed header is authenticated against the top-level root of the carried context info' if macro == 'MODE_ATV' else 'the BTC transaction embeds the 80 publication bytes, BTC context headers are contiguous and meet their PoW'),
+                            'the memoised `checked` flag is set exactly by a successful full check; a repeated check gives the same verdict'],
+            'rungs': {'quick': [{'defines': ['NLAYERS=%d' % nl_q], 'bound': 'Merkle paths of 0..%d symbolic 256-bit layers, 3-bit symbolic index, symbolic tree selector, symbolic subject/root/transaction ids; crypto leaves (SHA-256 node hash, tx ids, secp256k1 verify, address derivation, altchain header check) replaced by symbolic oracles at link level' % nl_q, 'timeout': tq}],
+                      'thorough': [{'defines': ['NLAYERS=%d' % nl_t], 'bound': 'Merkle paths of 0..%d layers' % nl_t, 'timeout': tt}]}}
+
+
+HARNESSES += [
+    HC('h_checkatv', 'MODE_ATV', 'checkATV (real, including checkVbkTx, checkPublicationData, checkSignature, checkMerklePath, VbkMerklePath::calculateMerkleRoot)', 3, 4, 280, 1500),
+    HC('h_checkvtb', 'MODE_VTB', 'checkVTB (real, including checkVbkPopTx, checkBitcoinTransactionForPoPData, checkBtcBlocks, checkSignature, both Merkle path types)', 2, 3, 280, 1500),
+]
 import importlib.util as _ilu
 _sp = _ilu.spec_from_file_location('c16spec', os.path.join(os.path.dirname(os.path.abspath(__file__)), '..', 'C16', 'spec.py'))
 _c16 = _ilu.module_from_spec(_sp); _sp.loader.exec_module(_c16)
 HARNESSES += _c16.HARNESSES   # PopData limits / duplicate ids / verdict conjunction on the sliced checkPopData
 EXPLANATION = 'Stateless validation kernels are executed on symbolic transactions / headers and compared with independent specifications.'
-ASSUMPTIONS = ['secp256k1 signatures, address derivation, SHA-256 (Merkle roots, ids) and progpow cannot be encoded and are outside', 'split (chunked) embeddings are covered for memory safety in C06 only; checkATV/checkVTB/checkPopData as wholes are outside', 'block hashes are preset']
+ASSUMPTIONS = ['secp256k1 signature verification, address derivation, SHA-256 and progpow cannot be encoded: in h_checkatv/h_checkvtb they are link-level oracles (arbitrary verdicts / uninterpreted collision-free hash), i.e. the claim is about how the verdicts are COMBINED and what they are asked about, not about the primitives themselves', 'split (chunked) embeddings are covered for memory safety in C06 only; checkATV/checkVTB wholes are decided modulo the oracles above', 'block hashes are preset']
